@@ -111,7 +111,9 @@ def check(run: Run) -> None:
     lk_spec = spec_function(m, SPEC_LOOKUP.replace("FRAMES_ATTR", _frames_attr(ctx, m)), "func_adl.ast.call_stack", "argument_stack")
     want = canon(ctx.analysis(lk_spec).return_term(), lk_spec.pos_params)
     got = canon(ctx.analysis(lk).return_term(), lk.pos_params)
-    run.check(drop_sites(got) == drop_sites(want), "C02.R3b", lk, lk.node, "lookup_name searches frames innermost-first and falls back to the default", f"lookup_name computes {show(got)[:160]}; expected innermost-first search {show(want)[:120]}: a shadowed outer definition can win", term=show(got))
+    from ..spec import first_match_as_search
+
+    run.check(first_match_as_search(drop_sites(got)) == drop_sites(want), "C02.R3b", lk, lk.node, "lookup_name searches frames innermost-first and falls back to the default", f"lookup_name computes {show(got)[:160]}; expected innermost-first search {show(want)[:120]}: a shadowed outer definition can win", term=show(got))
     # visit_Name == stack.lookup_name(node.id, default=node)
     from ..terms import subst
 
@@ -218,6 +220,10 @@ def _check_make_args_unique(run: Run, ctx, m) -> None:
         raise AnalysisError("make_args_unique no longer contains one transformer")
     rc = classes[0]
     vl, vn = rc.methods.get("visit_Lambda"), rc.methods.get("visit_Name")
+    if vl is not None:
+        from ..normalise import unrolled
+
+        vl = unrolled(m, vl)  # the work may sit in a private helper visit_Lambda ends with
     if vl is None or vn is None:
         raise AnalysisError("replace_args lost visit_Lambda / visit_Name")
     fl = ctx.analysis(vl)
@@ -235,7 +241,14 @@ def _check_make_args_unique(run: Run, ctx, m) -> None:
         lp_ = _loop_head(cfg_, op.node, vl)
         if lp_ is None:
             return None
-        return cfg_.node_of(lp_), strip_sites(fl.term_of(lp_.iter, cfg_.node_of(lp_)))
+        it_ = lp_.iter
+        if isinstance(it_, ast.Attribute):
+            # a field that was just assigned (r.args.args = [.. for .. in mapping]; for _ in r.args.args): its length is the value's
+            txt = ast.unparse(it_)
+            defs = [n for n in own_nodes(vl) if isinstance(n, ast.Assign) and len(n.targets) == 1 and ast.unparse(n.targets[0]) == txt and cfg_.has_node(n) and cfg_.dominates(cfg_.node_of(n), cfg_.node_of(lp_))]
+            if len(defs) == 1:
+                return cfg_.node_of(lp_), strip_sites(fl.term_of(defs[0].value, cfg_.node_of(defs[0])))
+        return cfg_.node_of(lp_), strip_sites(fl.term_of(it_, cfg_.node_of(lp_)))
 
     selfp_ = ("param", vl.pos_params[0])
     stack_ops = []
@@ -273,7 +286,9 @@ def _check_make_args_unique(run: Run, ctx, m) -> None:
         same_len = _len_source(n_push) == _len_source(n_pop) and _len_source(n_push) is not None
         run.check(same_len, "C02.R2", vl, stmt_of(pops[0].node), "as many pops as pushes", f"pushes iterate over {show(n_push)[:80]} but pops over {show(n_pop)[:80]}")
     # fresh names for the first lambda, identity (shadow) for nested ones
-    fresh = [c for c in calls_in(vl) if isinstance(c.func, ast.Name) and c.func.id == "arg_name"]
+    from ..lib import unit as _unit
+
+    fresh = [c for f_ in _unit(m, vl) for c in calls_in(f_) if isinstance(c.func, ast.Name) and c.func.id == "arg_name"]
     if not fresh:
         # the name source handed to the renamer at construction: arg_name itself or `lambda: arg_name()`
         init = rc.methods.get("__init__")
@@ -338,6 +353,9 @@ def _len_source(t):
         seen += 1
         if t[0] == "phi":
             srcs = {_len_source(a) for a in t[1]}
+            return srcs.pop() if len(srcs) == 1 else None
+        if t[0] == "ifexp":
+            srcs = {_len_source(t[2]), _len_source(t[3])}
             return srcs.pop() if len(srcs) == 1 else None
         if t[0] == "comp" and len(t[3]) == 1:
             t = t[3][0][0]
